@@ -285,6 +285,12 @@ def gen_name_clash(rng):
     k1, k2 = rng.choice(CLASH_PAIRS)
     if rng.random() < 0.5:
         k1, k2 = k2, k1
+    if rng.random() < 0.3:
+        # tree-shaped, and the registry order is not depth-first: the deeper model is merged from two similar siblings (so it
+        # is registered last), an earlier subtree precedes it and the other clashing model is a later top-level sibling
+        plain = "old_" + "".join(c for c in k1 if c.isalnum())
+        return {"info": {"version": 1}, "x": {"n": 1.5, k1: {"p": 1, "k": 2}, plain: {"p": 1, "k": 2}},
+                k2: {"q": "s", "r": True}}
     out = {"p": {k1: {"x": 1}}, "q": {k2: {"y": "s"}}}
     if rng.random() < 0.3:
         out["r"] = {k1: {"z": [1.5]}, "n": 1}
